@@ -7,7 +7,9 @@
    * float kind: the IEEE-754 binary64 result (Flocq, round to nearest even; inf and NaN where IEEE
      produces them), an integer operand being converted to double; zero divisor of any kind: Undefined;
    * bitwise operators: two's-complement bit operations (Z.land/lor/lxor on Z); not defined on float;
-   * shifts: bit shifts of the fixed-width value of the result kind; a shift amount outside
+   * shifts: `x << n` is the exact value x * 2^n, Undefined when it is not representable in the result
+     kind (a bit would be lost: "a wrapped, truncated or otherwise wrong value is never produced");
+     `x >> n` is floor (x / 2^n) (arithmetic shift, always representable); a shift amount outside
      [0, width): Undefined;
    * comparison and equality: by numeric value; when either side is float both are compared as doubles
      (NaN compares false, != true). *)
@@ -68,10 +70,10 @@ Definition spec_shift (o : sop) (a b : value) : sres :=
       | KFloat => Undefined
       | k => let n := Zval b in
              if (0 <=? n) && (n <? width (ity_of k))
-             then Exact (mk k match o with
-                              | Shl => wrap (ity_of k) (Zval a * 2 ^ n)
-                              | Shr => Z.shiftr (Zval a) n
-                              end)
+             then match o with
+                  | Shl => repr k (Zval a * 2 ^ n)
+                  | Shr => Exact (mk k (Z.shiftr (Zval a) n))
+                  end
              else Undefined
       end
   | _, _ => Undefined
